@@ -15,24 +15,48 @@ import (
 )
 
 type Req struct {
-	ID       int      `json:"id"`
-	Op       string   `json:"op"` // output | walk | mkdir | verify
-	Doc      string   `json:"doc"`
-	Massive  bool     `json:"massive,omitempty"`
-	Format   string   `json:"format,omitempty"` // "", json, yaml, toml
-	DryRun   bool     `json:"dryrun,omitempty"`
-	NoIter   bool     `json:"noiter,omitempty"`
-	Branches []string `json:"branches,omitempty"` // LD LI MD MI
-	Exts     []string `json:"exts,omitempty"`
-	Strict   bool     `json:"strict,omitempty"`
-	Jail     bool     `json:"jail,omitempty"`   // mkdir/verify: run inside a fresh temp dir and report it
-	Target   string   `json:"target,omitempty"` // explicit target directory (the parent owns the jail)
-	Route    string   `json:"route,omitempty"`  // "" / "md": From-Markdown; "root": From-Root (tree built from Items)
-	Items    []Item   `json:"items,omitempty"`
-	Alias    bool     `json:"alias,omitempty"`    // use the deprecated alias of the entry point
-	Leaks    bool     `json:"leaks,omitempty"`    // after the call, wait for gtree goroutines to settle and report those left
-	ReadFail *int     `json:"readfail,omitempty"` // the reader delivers this many bytes and then fails with a sentinel error
-	WFault   *WFault  `json:"wfault,omitempty"`   // the writer refuses one Write call
+	ID        int        `json:"id"`
+	Op        string     `json:"op"` // output | walk | mkdir | verify
+	Doc       string     `json:"doc"`
+	Massive   bool       `json:"massive,omitempty"`
+	Format    string     `json:"format,omitempty"` // "", json, yaml, toml
+	DryRun    bool       `json:"dryrun,omitempty"`
+	NoIter    bool       `json:"noiter,omitempty"`
+	Branches  []string   `json:"branches,omitempty"` // LD LI MD MI
+	Exts      []string   `json:"exts,omitempty"`
+	Strict    bool       `json:"strict,omitempty"`
+	Jail      bool       `json:"jail,omitempty"`   // mkdir/verify: run inside a fresh temp dir and report it
+	Target    string     `json:"target,omitempty"` // explicit target directory (the parent owns the jail)
+	Route     string     `json:"route,omitempty"`  // "" / "md": From-Markdown; "root": From-Root (tree built from Items)
+	Items     []Item     `json:"items,omitempty"`
+	Alias     bool       `json:"alias,omitempty"`     // use the deprecated alias of the entry point
+	Leaks     bool       `json:"leaks,omitempty"`     // after the call, wait for gtree goroutines to settle and report those left
+	ReadFail  *int       `json:"readfail,omitempty"`  // the reader delivers this many bytes and then fails with a sentinel error
+	WFault    *WFault    `json:"wfault,omitempty"`    // the writer refuses one Write call
+	Procs     int        `json:"procs,omitempty"`     // GOMAXPROCS for this call (0 = leave)
+	Yield     int        `json:"yield,omitempty"`     // reader, writer and callbacks yield / sleep (1 = Gosched, n>1 = n microseconds)
+	CancelAt  *int       `json:"cancelat,omitempty"`  // cancel the caller's context when the reader has delivered this many bytes (-1: before the call)
+	FailVisit int        `json:"failvisit,omitempty"` // walk: the callback fails at its n-th call (counted over all goroutines)
+	FailNames []string   `json:"failnames,omitempty"` // walk: the callback fails at every node with one of these names
+	PreDoc    string     `json:"predoc,omitempty"`    // mkdir/verify in a worker-owned jail: directories made (simple mode) before the call
+	Record    bool       `json:"record,omitempty"`    // record the hook events of this call
+	Delays    int64      `json:"delays,omitempty"`    // seed for random delays at hook points (0 = none)
+	Plan      []PlanStep `json:"plan,omitempty"`      // gate: hold goroutines at hook points until the plan allows them
+}
+
+// Event is one recorded hook event.
+type Event struct {
+	Seq   uint64 `json:"seq"`
+	Point string `json:"ev"`
+	Gid   uint64 `json:"gid"`
+	Item  string `json:"item"`
+}
+
+// PlanStep names a hook event that must happen next: point, and optionally the item.
+type PlanStep struct {
+	Point string `json:"ev"`
+	Item  string `json:"item,omitempty"`
+	Any   bool   `json:"any,omitempty"` // any item
 }
 
 // WFault: Write call number At (1-based) is refused: "fail" accepts nothing, "short" accepts half; both
@@ -61,6 +85,11 @@ type Rep struct {
 	WCalls      int      `json:"wcalls,omitempty"`      // Write calls seen by the writer
 	WRefused    bool     `json:"wrefused,omitempty"`    // some Write call was refused or cut
 	WSizes      []int    `json:"wsizes,omitempty"`      // requested size of each Write call
+	IsCtxErr    bool     `json:"isctxerr,omitempty"`    // errors.Is(err, context.Canceled)
+	Events      []Event  `json:"events,omitempty"`
+	Unforced    bool     `json:"unforced,omitempty"` // the plan could not be forced (a gate timed out)
+	PlanDone    int      `json:"plandone,omitempty"` // plan steps that happened in order
+	ElapsedUs   int64    `json:"elapsed_us,omitempty"`
 }
 
 // Serve runs the worker loop on stdin/stdout.
@@ -108,8 +137,8 @@ type tailBuf struct {
 func (t *tailBuf) Write(p []byte) (int, error) {
 	t.mu.Lock()
 	t.b = append(t.b, p...)
-	if len(t.b) > 1<<16 {
-		t.b = t.b[len(t.b)-(1<<16):]
+	if len(t.b) > 1<<20 {
+		t.b = t.b[len(t.b)-(1<<20):]
 	}
 	t.mu.Unlock()
 	return len(p), nil
@@ -248,6 +277,17 @@ func (pl *Pool) Call(rq Req, deadline time.Duration) Rep {
 	p := <-pl.next
 	defer func() { pl.next <- p }()
 	return p.Call(rq, deadline)
+}
+
+// Stderr returns what the workers wrote to stderr so far (race reports, crash dumps).
+func (pl *Pool) Stderr() []string {
+	var out []string
+	for _, p := range pl.procs {
+		p.mu.Lock()
+		out = append(out, p.stderr.String())
+		p.mu.Unlock()
+	}
+	return out
 }
 
 func (pl *Pool) Deaths() int {
